@@ -172,6 +172,14 @@ class EngineC18:
                 init["init_kind"] = weighted(sw, [("random", 3), ("nvecs", 2), ("explicit", 3)])
         else:
             maxrank = min(int(np.prod([eff[m] for m in range(N) if m != n])) for n in range(N))
+            live = [e for e in eff if e > 1]
+            if len(live) <= 2 and live:
+                # Data that are, in effect, a matrix (all but two modes carry a single non-empty slice): a CP model with as
+                # many components as the matrix has rows or columns fits exactly and is far from unique, and which of
+                # the exact fits ALS walks to is decided in the last bits (thorough tier, root seed 851, run 7852: rank 3
+                # on 3x3x(1 non-empty slice), dense vs sparse 1.026e-8 against a tolerance of 1e-8, self-sensitivity
+                # just below the guard). Same family as the 2x3 / rank-2 case of section 11: generation, not the oracle.
+                maxrank = max(1, min(maxrank, min(live) - 1))
             init["rank"] = g.randint(1, min(3, maxrank))
             if alg == "cp_als":
                 init["maxiters"] = sw.randint(1, 5)
